@@ -61,8 +61,13 @@ def check_adm(e, node, fails, where):
 def generated_fields(e):
     """(name, value) pairs the entry kind emits itself, as they appear in the raw line view."""
     out = []
-    for n, v in e.get("fields") or []:
-        out.append((n, "None" if v is None else v))
+    fields = e.get("fields") or []
+    multiline = any(isinstance(v, str) and "\n" in v for _, v in fields)
+    for n, v in fields:
+        out.append((n, "None" if v is None else v.split("\n")[0] if isinstance(v, str) else v))
+    if multiline:
+        # the continuation lines of the value end the directive; the fields after it are outside the entry
+        out = [x for x in out if x[0] == "Default value"]
     return out
 
 
@@ -87,6 +92,8 @@ def check_sig(e, node, fails, where):
                 fails.append(("sig:generic-args-grouped", f"{where}: expected tokens {toks!r} got {inner!r}"))
         elif inner != " ".join(toks):
             fails.append(("sig:generic-args", f"{where}: expected {' '.join(toks)!r} got {inner!r}"))
+    elif e.get("unnamed"):
+        return          # add_test without NAME: C02 demands an entry, nothing fixes how it is named
     else:
         if node.arg != e["sig"]:
             sub = "sig"
@@ -109,6 +116,9 @@ def check_fields(e, node, fails, where):
         # UNSET: nothing to show as default; only the type is constrained
         exp = exp[1:]
         act = [f for f in act if f[0] != "Default value"]
+    if any(isinstance(v, str) and "\n" in v for _, v in exp):
+        # a value with a line break cannot be one field line: compare the first line of the default only
+        exp = [(n, v.split("\n")[0]) for n, v in exp if n == "Default value"]
     expd = dict(exp)
     actd = dict(act)        # a later field wins: generated fields follow the doc text
     for n, v in exp:
@@ -276,6 +286,8 @@ def compare_entries(expected, page):
         if n.name != e["dir"]:
             return False
         nm = e.get("name") or ""
+        if e.get("unnamed"):
+            return any(a[0] == "warning" and "CTest" in (a[1] or "") for a in n.admonitions())
         if e["dir"] in ("data", "py:class"):
             return n.arg == nm
         return n.arg.lower().startswith(nm.lower() + "(")
